@@ -85,13 +85,18 @@ def mergeNfaRow (row : List (Option Char × List σ)) : List (σ × Str) :=
 /-- `Dict[state, str]` seen as `Dict[state, Optional[str]]` (the `cast`). -/
 def castRow (row : List (σ × Str)) : List (σ × Option Str) := row.map fun e => (e.1, some e.2)
 
+/-- `for q in l: rows[q] = f(rows[q])` — the shape of the two row-updating loops below
+(`rows[q]` on a missing row raises `KeyError`). -/
+def updRows {ρ : Type} (f : ρ → ρ) (l : List σ) (rows : List (σ × ρ)) : Res (List (σ × ρ)) :=
+  l.foldlM (fun rows q =>
+    match alookup q rows with
+    | none => .error (.py .keyError)
+    | some row => .ok (ainsert q (f row) rows)) rows
+
 /-- `for state in final_states: new_gnfa_transitions[state][new_final_state] = ""`. -/
 def addFinalEdges (qf : σ) (finals : List σ) (rows : List (σ × List (σ × Option Str))) :
     Res (List (σ × List (σ × Option Str))) :=
-  finals.foldlM (fun rows q =>
-    match alookup q rows with
-    | none => .error (.py .keyError)
-    | some row => .ok (ainsert q (ainsert qf (some []) row) rows)) rows
+  updRows (fun row => ainsert qf (some []) row) finals rows
 
 /-- `for leftover_state in gnfa_states - row.keys(): if leftover_state is not new_initial_state:
 row[leftover_state] = None`. -/
@@ -102,10 +107,7 @@ def fillRow (gstates : List σ) (qi : σ) (row : List (σ × Option Str)) : List
 /-- `for state in gnfa_states - {new_final_state}: …`. -/
 def fillNone (gstates : List σ) (qi qf : σ) (rows : List (σ × List (σ × Option Str))) :
     Res (List (σ × List (σ × Option Str))) :=
-  (gstates.filter fun q => decide (q ≠ qf)).foldlM (fun rows q =>
-    match alookup q rows with
-    | none => .error (.py .keyError)
-    | some row => .ok (ainsert q (fillRow gstates qi row) rows)) rows
+  updRows (fillRow gstates qi) (gstates.filter fun q => decide (q ≠ qf)) rows
 
 /-- The second half of `from_dfa` / `from_nfa`: two new states, the ε-edges from the new
 initial state and into the new final state, `None` for every other pair, then the validating
